@@ -291,7 +291,13 @@ def run_playback_tests(h, seed, tests, profiles=("dev", "release"), budget_s=900
             ran = re.search(r"test \S*%s \.\.\. (\w+)" % re.escape(tn), out)
             if ran and ran.group(1) == "FAILED":
                 pm = re.search(r"panicked at ([^\n]*\n[^\n]*)", out)
-                results[profile + ":" + tn] = ("panicked", pm.group(1) if pm else out[-800:])
+                where = pm.group(1) if pm else out[-800:]
+                if "kani/src/concrete_playback.rs" in where:
+                    # the recorded values do not fit the harness any more (its inputs changed since the
+                    # replay was recorded): that is a stale replay file, not a reproduction
+                    results[profile + ":" + tn] = ("error", "stale replay: recorded values do not match the current form of the harness (%s)" % where.replace("\n", " | ")[:200])
+                    continue
+                results[profile + ":" + tn] = ("panicked", where)
             elif ran and ran.group(1) == "ok":
                 results[profile + ":" + tn] = ("passed", "")
             elif "memory allocation of" in out or "SIGABRT" in out or "SIGSEGV" in out or "stack overflow" in out:
@@ -567,7 +573,11 @@ def replay(prop, path, seed):
         return 2
     if isinstance(tests, str):
         tests = [tests]
-    results = run_playback_tests(h, d.get("seed", seed), tests)
+    # a replay recorded through the native grid names a #[test] of the harness file instead of
+    # carrying a generated playback test
+    grid = [re.search(r"native grid test (\w+)", t).group(1) for t in tests if t.startswith("// native grid test")]
+    tests = [t for t in tests if not t.startswith("// native grid test")]
+    results = run_playback_tests(h, d.get("seed", seed), tests, extra_names=grid)
     for k, v in results.items():
         log("   %s: %s %s" % (k, v[0], v[1][:300].replace("\n", " | ")))
     if any(v[0] in ("panicked", "timeout", "aborted") for v in results.values()):
